@@ -366,10 +366,54 @@ def replay(hist_ops):
     return 1 if part.violations else 0
 
 
+def _untouched_objects(part):
+    """Quantities (and value objects holding them) that nobody has looked at yet, a registration that changes what
+    their category means, and only then the first look: their unit, category, quantity type, composing map and caption are what they were created as (unit NAMES and the
+    category's valid units are asked from the database at the time of the question and are not judged).  (The search above reads
+    every getter after every step - and thereby fixes whatever a quantity resolves lazily.)"""
+    import itertools
+
+    READS = [
+        ("GetQuantityType()", lambda q: q.GetQuantityType(), "length"),
+        ("GetCategory()", lambda q: q.GetCategory(), "length"),
+        ("GetUnit()", lambda q: q.GetUnit(), "cm"),
+        ("ConvertScalarValue(2, 'm')", lambda q: q.ConvertScalarValue(2.0, "m"), 0.02),
+        ("GetCategoryToUnitAndExps()", lambda q: [(c, tuple(ue)) for c, ue in q.GetCategoryToUnitAndExps().items()], [("length", ("cm", 1))]),
+        ("GetUnknownCaption()", lambda q: q.GetUnknownCaption(), ""),
+        ("GetCategoryInfo().quantity_type", lambda q: q.GetCategoryInfo().quantity_type, "length"),
+    ]
+    REGS = [
+        ("AddCategory('length', 'time', override=True)", lambda db: db.AddCategory("length", "time", override=True)),
+        ("AddCategory('length', 'length', override=True, default_unit='km', valid_units=['km'])", lambda db: db.AddCategory("length", "length", override=True, default_unit="km", valid_units=["km"])),
+        ("AddCategory('other', 'length')", lambda db: db.AddCategory("other", "length")),
+    ]
+    for (rname, reg), order in itertools.product(REGS, itertools.permutations(range(len(READS)), 2)):
+        for how, mk in (("ObtainQuantity('cm', 'length')", lambda: ObtainQuantity("cm", "length")), ("Quantity('length', 'cm')", lambda: Quantity("length", "cm")), ("Scalar(1, 'cm', 'length').GetQuantity()", lambda: Scalar(1.0, "cm", "length").GetQuantity())):
+            db = worlds.mini()
+            with worlds.installed(db):
+                q = mk()
+                try:
+                    reg(db)
+                except Exception:
+                    pass
+                for i in order:
+                    name, f, want = READS[i]
+                    part.count("evaluations")
+                    part.count("first_looks_after_a_registration")
+                    try:
+                        got = f(q)
+                    except Exception as e:
+                        got = repr(e)
+                    if got != want:
+                        part.violation("C07:%s, never looked at ; %s ; first look: %s" % (how, rname, " then ".join(READS[j][0] for j in order)), {"read": name, "got": got, "created_as": want})
+                        break
+
+
 def run(ctx):
     depth = 4 if ctx.thorough else 3
     with worlds.world("posc"):
         res = explorer.bfs(ctx, make, apply, OPS, canon, max_depth=depth)
+    _untouched_objects(ctx.part)
     ctx.level = "model_checking"
     ctx.states = res["states"]
     ctx.transitions = res["transitions"]
